@@ -637,6 +637,83 @@ def add_idless_sync_record(case: dict, rng) -> None:
                                                "ts": a, "dur": rng.randint(0, 5), "args": {"cuda_sync_kind": "Event Sync", "stream": -1}})
 
 
+def bigvocab(name: str) -> Profile:
+    """the named profile with ranks that carry vocabularies of their own (60-100 operator names per rank on a padding thread): more
+    than 127 symbols in the job while a rank's own table stays below 128 (narrow local id columns, wide job-wide ids)"""
+    p = PROFILES[name]
+    return replace(p, name=name + "+bigvocab", n_ranks=(max(2, p.n_ranks[0]), max(3, p.n_ranks[1])), n_pad=(60, 100), unique_pad_names=True)
+
+
+def make_superset_rank(case: dict, rng) -> None:
+    """one later rank whose vocabulary is the union of all ranks' (its local symbol table has the job table's size, in another
+    order): copies of the other ranks' entries are appended to it"""
+    import copy
+    ks = sorted(case["ranks"].keys())
+    if len(ks) < 2:
+        return
+    tgt = rng.choice(ks[1:])
+    extra = [copy.deepcopy(e) for r in ks if r != tgt for e in case["ranks"][r]["events"]
+             if not str(e.get("name", "")).startswith("ProfilerStep")]
+    case["ranks"][tgt]["events"].extend(extra)
+
+
+def scale_case(case: dict, k: int) -> None:
+    """every time stamp and duration multiplied by the integer k (a long trace: sums pass 2**24 and 2**31; the models are
+    homogeneous in time, Cxx_resolution_independent)"""
+    top = max([e.get("ts", 0) + e.get("dur", 0) for rk in case["ranks"].values() for e in rk["events"]
+               if isinstance(e.get("ts", 0), int) and isinstance(e.get("dur", 0), int)] + [1])
+    while k > 1 and top * k >= 2 ** 50:      # stay exactly representable as doubles
+        k //= 10
+    for rk in case["ranks"].values():
+        for e in rk["events"]:
+            for f in ("ts", "dur"):
+                if isinstance(e.get(f), int) and not isinstance(e.get(f), bool):
+                    e[f] = e[f] * k
+    if isinstance(case.get("epoch"), int):
+        case["epoch"] = case["epoch"] * k
+    if isinstance(case.get("T"), int):
+        case["T"] = case["T"] * k
+    case.setdefault("params", {})["time_factor"] = k
+
+
+def lookalike_launch_names(case: dict, rng, p: float = 0.3) -> None:
+    """some linked runtime calls get names that only CONTAIN a launch name (per-thread-stream variants): they are not launch calls"""
+    for rk in case["ranks"].values():
+        for e in rk["events"]:
+            if e.get("cat") in ("cuda_runtime", "cuda_driver") and e.get("name") in LAUNCH_KERNEL_NAMES + LAUNCH_MEM_NAMES and rng.random() < p:
+                e["name"] = e["name"] + rng.choice(["_ptsz", "_v2", "Async_internal"])
+
+
+TRICKY_KERNEL_NAMES = ["ncclAllGather_RING_SIMPLE(ncclDevKernelArgs*)", "void reduce_kernel<SyncPolicy>(int)", "void at::vectorized<Memcpy>(float*)",
+                       "ncclDevFunc<AllReduceKernel>(int)", "void helper<int>(MemsetArgs*)"]
+
+
+def tricky_kernel_names(case: dict, rng, p: float = 0.4) -> None:
+    """device kernels whose kind is decided by text inside <...> or (...): the shortened display name is of another kind"""
+    for rk in case["ranks"].values():
+        for e in rk["events"]:
+            if e.get("cat") in ("kernel", "Kernel") and isinstance((e.get("args") or {}).get("stream"), int) and rng.random() < p:
+                e["name"] = rng.choice(TRICKY_KERNEL_NAMES)
+
+
+def big_correlation_ids(case: dict, rng) -> None:
+    """correlation ids around 2**31 and 2**32 (pairings kept): ids that differ by 2**32 must not be confused, ids above 2**31 are ids"""
+    for rk in case["ranks"].values():
+        base = rng.choice([2 ** 31 - 3, 2 ** 31 + 5, 2 ** 32 - 2])
+        for e in rk["events"]:
+            a = e.get("args")
+            if isinstance(a, dict) and isinstance(a.get("correlation"), int) and a["correlation"] > 0:
+                a["correlation"] = a["correlation"] + base
+        # an unlinked device activity whose id differs from a host call's id by exactly 2**32
+        hosts = [e for e in rk["events"] if isinstance(e.get("args"), dict) and isinstance(e["args"].get("correlation"), int)
+                 and e["args"]["correlation"] > 0 and "stream" not in e["args"]]
+        devs = [e for e in rk["events"] if isinstance(e.get("args"), dict) and isinstance(e["args"].get("stream"), int) and e["args"]["stream"] > 0]
+        if hosts and devs:
+            h, d = rng.choice(hosts), rng.choice(devs)
+            rk["events"].append({"ph": "X", "cat": "kernel", "name": "far_id_kernel", "pid": d["pid"], "tid": d["tid"], "ts": h["ts"] + 1, "dur": 1,
+                                 "args": {"stream": d["args"]["stream"], "device": d["pid"], "correlation": h["args"]["correlation"] + 2 ** 32}})
+
+
 def add_second_process(case: dict, rng) -> None:
     """A second host process in some ranks whose thread has the SAME thread id as a thread of the first one (as with several
     processes recorded into one trace): a copy of one host thread's events under another pid; its launch-like calls get fresh
